@@ -70,19 +70,67 @@ theorem rdBytes_len {s s' x : Bytes} {n : Nat} (h : rdBytes n s = .ok (x, s')) :
   obtain ⟨rfl, _⟩ := h
   simp
 
-theorem vNonNeg_inv (f : Fmt) {s s' : Bytes} {n : Nat} (h : vNonNeg f.version s = .ok (n, s'))
+theorem rdU64raw_inv {s s' : Bytes} {n : Nat} (h : rdU64raw s = .ok (n, s')) (hl : 8 ≤ s.length) : s = be64 n ++ s' := by
+  unfold rdU64raw at h
+  simp only [Except.ok.injEq, Prod.mk.injEq] at h
+  obtain ⟨rfl, rfl⟩ := h
+  rw [ztake_of_le hl, be64_beNat _ (by simp; omega), List.take_append_drop]
+
+/-- `p >>= fun v => if bad v then fail else pure v` accepted: `p` returned that value -/
+theorem guard_inv {p : VP Nat} {bad : Nat → Prop} [DecidablePred bad] {e : VErr} {s s' : Bytes} {n : Nat}
+    (h : (p >>= fun v => if bad v then VP.fail e else pure v) s = .ok (n, s')) : p s = .ok (n, s') ∧ ¬ bad n := by
+  obtain ⟨v, s1, h1, h⟩ := bind_inv h
+  by_cases hb : bad v
+  · simp only [hb, ↓reduceIte] at h; exact (fail_inv h).elim
+  · simp only [hb, ↓reduceIte] at h
+    have := pure_inv h
+    simp only [Prod.mk.injEq] at this
+    obtain ⟨rfl, rfl⟩ := this
+    exact ⟨h1, hb⟩
+
+theorem vNonNeg_inv (c : VCfg) (f : Fmt) {s s' : Bytes} {n : Nat} (h : vNonNeg c f.version s = .ok (n, s'))
     (hl : sizeofNonNeg f.version ≤ s.length) : s = putNonNeg f.version n ++ s' := by
-  cases f
+  obtain ⟨sl, ss, st, d64⟩ := c
+  cases ss <;> cases f
   · exact rdU32_inv (s := s) h (by simpa [sizeofNonNeg, Fmt.version] using hl)
   · exact rdU32_inv (s := s) h (by simpa [sizeofNonNeg, Fmt.version] using hl)
   · exact rdU64_inv (s := s) h (by simpa [sizeofNonNeg, Fmt.version] using hl)
+  · exact rdU32_inv (guard_inv (p := rdU32) (bad := fun v => v > 2147483647) h).1 (by simpa [sizeofNonNeg, Fmt.version] using hl)
+  · exact rdU32_inv (guard_inv (p := rdU32) (bad := fun v => v > 2147483647) h).1 (by simpa [sizeofNonNeg, Fmt.version] using hl)
+  · exact rdU64raw_inv (guard_inv (p := rdU64raw) (bad := fun v => v ≥ 9223372036854775808) h).1 (by simpa [sizeofNonNeg, Fmt.version] using hl)
 
-theorem vBegin_inv (f : Fmt) {s s' : Bytes} {n : Nat} (h : vBegin f.version s = .ok (n, s'))
+theorem vNumrecs_inv (c : VCfg) (f : Fmt) {s s' : Bytes} {n : Nat} (h : vNumrecs c f.version s = .ok (n, s'))
+    (hl : sizeofNonNeg f.version ≤ s.length) : s = putNonNeg f.version n ++ s' := by
+  obtain ⟨sl, ss, st, d64⟩ := c
+  cases ss <;> cases f
+  · exact rdU32_inv (s := s) h (by simpa [sizeofNonNeg, Fmt.version] using hl)
+  · exact rdU32_inv (s := s) h (by simpa [sizeofNonNeg, Fmt.version] using hl)
+  · exact rdU64_inv (s := s) h (by simpa [sizeofNonNeg, Fmt.version] using hl)
+  · exact rdU32_inv (guard_inv (p := rdU32) (bad := fun v => v > 2147483647 ∧ v ≠ 4294967295) h).1 (by simpa [sizeofNonNeg, Fmt.version] using hl)
+  · exact rdU32_inv (guard_inv (p := rdU32) (bad := fun v => v > 2147483647 ∧ v ≠ 4294967295) h).1 (by simpa [sizeofNonNeg, Fmt.version] using hl)
+  · exact rdU64raw_inv (guard_inv (p := rdU64raw) (bad := fun v => v ≥ 9223372036854775808 ∧ v ≠ 18446744073709551615) h).1 (by simpa [sizeofNonNeg, Fmt.version] using hl)
+
+theorem vVsize_inv (c : VCfg) (f : Fmt) {s s' : Bytes} {n : Nat} (h : vVsize c f.version s = .ok (n, s'))
+    (hl : sizeofNonNeg f.version ≤ s.length) : s = putNonNeg f.version n ++ s' := by
+  obtain ⟨sl, ss, st, d64⟩ := c
+  cases ss <;> cases f
+  · exact rdU32_inv (s := s) h (by simpa [sizeofNonNeg, Fmt.version] using hl)
+  · exact rdU32_inv (s := s) h (by simpa [sizeofNonNeg, Fmt.version] using hl)
+  · exact rdU64_inv (s := s) h (by simpa [sizeofNonNeg, Fmt.version] using hl)
+  · exact rdU32_inv (s := s) h (by simpa [sizeofNonNeg, Fmt.version] using hl)
+  · exact rdU32_inv (s := s) h (by simpa [sizeofNonNeg, Fmt.version] using hl)
+  · exact rdU64raw_inv (s := s) h (by simpa [sizeofNonNeg, Fmt.version] using hl)
+
+theorem vBegin_inv (c : VCfg) (f : Fmt) {s s' : Bytes} {n : Nat} (h : vBegin c f.version s = .ok (n, s'))
     (hl : sizeofOff f.version ≤ s.length) : s = putBegin f.version n ++ s' := by
-  cases f
+  obtain ⟨sl, ss, st, d64⟩ := c
+  cases ss <;> cases f
   · exact rdU32_inv (s := s) h (by simpa [sizeofOff, Fmt.version] using hl)
   · exact rdU64_inv (s := s) h (by simpa [sizeofOff, Fmt.version] using hl)
   · exact rdU64_inv (s := s) h (by simpa [sizeofOff, Fmt.version] using hl)
+  · exact rdU32_inv (guard_inv (p := rdU32) (bad := fun v => v > 2147483647) h).1 (by simpa [sizeofOff, Fmt.version] using hl)
+  · exact rdU64raw_inv (guard_inv (p := rdU64raw) (bad := fun v => v ≥ 9223372036854775808) h).1 (by simpa [sizeofOff, Fmt.version] using hl)
+  · exact rdU64raw_inv (guard_inv (p := rdU64raw) (bad := fun v => v ≥ 9223372036854775808) h).1 (by simpa [sizeofOff, Fmt.version] using hl)
 
 theorem allZero_eq : ∀ (b : Bytes), allZero b = true → b = zeros b.length := by
   intro b
@@ -97,7 +145,7 @@ theorem allZero_eq : ∀ (b : Bytes), allZero b = true → b = zeros b.length :=
     congr 1
 
 /-- hdr_get_name accepted with null padding and without reading past the end: the bytes are the writer's -/
-theorem vName_inv (f : Fmt) {s s' nm : Bytes} (h : vName f.version s = .ok ((nm, true), s'))
+theorem vName_inv (c : VCfg) (f : Fmt) {s s' nm : Bytes} (h : vName c f.version s = .ok ((nm, true), s'))
     (hl : sizeofNonNeg f.version + rndup nm.length 4 ≤ s.length) (h0 : NoNul nm) :
     s = putName f.version nm ++ s' := by
   unfold vName at h
@@ -105,7 +153,7 @@ theorem vName_inv (f : Fmt) {s s' nm : Bytes} (h : vName f.version s = .ok ((nm,
   obtain ⟨x, s2, h2, h⟩ := bind_inv h
   have hx := rdBytes_len h2
   subst hx
-  have e1 := vNonNeg_inv f h1 (by omega)
+  have e1 := vNonNeg_inv c f h1 (by omega)
   have hl1 : s1.length = s.length - sizeofNonNeg f.version := by
     have := congrArg List.length e1
     simp only [List.length_append, putNonNeg_length] at this
@@ -151,7 +199,7 @@ theorem VFlags.ofPad_eq_ok {p : Bool} (h : VFlags.ofPad p = VFlags.ok) : p = tru
 theorem length_of_eq_append {s x r : Bytes} (h : s = x ++ r) : r.length = s.length - x.length := by
   subst h; simp
 
-theorem vDim_inv (f : Fmt) {s s' : Bytes} {d : Dim} {hu : Bool} (h : vDim f.version hu s = .ok ((d, VFlags.ok), s'))
+theorem vDim_inv (c : VCfg) (f : Fmt) {s s' : Bytes} {d : Dim} {hu : Bool} (h : vDim c f.version hu s = .ok ((d, VFlags.ok), s'))
     (hl : lenDim (sizeofNonNeg f.version) d ≤ s.length) (h0 : NoNul d.name) : s = putDim f.version d ++ s' := by
   unfold vDim at h
   obtain ⟨⟨nm, ok⟩, s1, h1, h⟩ := bind_inv h
@@ -167,16 +215,22 @@ theorem vDim_inv (f : Fmt) {s s' : Bytes} {d : Dim} {hu : Bool} (h : vDim f.vers
     subst hok
     unfold lenDim at hl
     simp only [] at hl h0
-    have e1 := vName_inv f h1 (by omega) h0
+    have e1 := vName_inv c f h1 (by omega) h0
     have l1 := length_of_eq_append e1
     rw [putName_length f h0] at l1
-    have e2 := vNonNeg_inv f h2 (by omega)
+    have e2 := vNonNeg_inv c f h2 (by omega)
     unfold putDim
     simp only []
     rw [e1, e2, List.append_assoc]
 
-theorem vDims_inv (f : Fmt) : ∀ (n : Nat) (hu : Bool) (s s' : Bytes) (ds : List Dim) (fl : VFlags),
-    vDims f.version n hu s = .ok ((ds, fl), s') → fl = VFlags.ok →
+theorem vDims_succ_apply (c : VCfg) (ver n : Nat) (hu : Bool) (s : Bytes) :
+    vDims c ver (n + 1) hu s = (do
+      let (d, ok) ← vDim c ver hu
+      let (ds, oks) ← vDims c ver n (hu || d.size == 0)
+      pure (d :: ds, ok.and oks) : VP (List Dim × VFlags)) s := rfl
+
+theorem vDims_inv (c : VCfg) (f : Fmt) : ∀ (n : Nat) (hu : Bool) (s s' : Bytes) (ds : List Dim) (fl : VFlags),
+    vDims c f.version n hu s = .ok ((ds, fl), s') → fl = VFlags.ok →
     (ds.map (lenDim (sizeofNonNeg f.version))).sum ≤ s.length → (∀ d ∈ ds, NoNul d.name) →
     s = ds.flatMap (putDim f.version) ++ s' ∧ ds.length = n := by
   intro n
@@ -189,7 +243,7 @@ theorem vDims_inv (f : Fmt) : ∀ (n : Nat) (hu : Bool) (s s' : Bytes) (ds : Lis
     simp
   | succ n ih =>
     intro hu s s' ds fl h hfl hl h0
-    unfold vDims at h
+    rw [vDims_succ_apply] at h
     obtain ⟨⟨d, ok⟩, s1, h1, h⟩ := bind_inv h
     simp only [] at h
     obtain ⟨⟨t, oks⟩, s2, h2, h⟩ := bind_inv h
@@ -199,7 +253,7 @@ theorem vDims_inv (f : Fmt) : ∀ (n : Nat) (hu : Bool) (s s' : Bytes) (ds : Lis
     obtain ⟨rfl, rfl⟩ := VFlags.and_eq_ok hfl
     simp only [List.map_cons, List.sum_cons] at hl
     have hd0 : NoNul d.name := h0 d (by simp)
-    have e1 := vDim_inv f h1 (by omega) hd0
+    have e1 := vDim_inv c f h1 (by omega) hd0
     have l1 := length_of_eq_append e1
     have hpl : (putDim f.version d).length = lenDim (sizeofNonNeg f.version) d := by
       unfold putDim lenDim
@@ -222,11 +276,11 @@ theorem vTag_inv {s s' : Bytes} {t : Nat} (h : vTag s = .ok (t, s')) (hl : 4 ≤
   · simp only [hc, ↓reduceIte] at h; exact (fail_inv h).elim
 
 /-- the array reader accepted, every empty list written as ABSENT: the bytes are hdr_put_NC_*array's -/
-theorem vArray_inv {α : Type} (f : Fmt) (tag maxN : Nat) (errMax : VErr) (items : Nat → VP (List α × VFlags))
+theorem vArray_inv (c : VCfg) {α : Type} (f : Fmt) (tag maxN : Nat) (errMax : VErr) (items : Nat → VP (List α × VFlags))
     (enc : α → Bytes) (len : α → Nat) (WF : α → Prop) {s s' : Bytes} {xs : List α}
     (hi : ∀ (n : Nat) (s0 s1 : Bytes) (ys : List α) (fl : VFlags), items n s0 = .ok ((ys, fl), s1) → fl = VFlags.ok →
         (ys.map len).sum ≤ s0.length → (∀ y ∈ ys, WF y) → s0 = ys.flatMap enc ++ s1 ∧ ys.length = n)
-    (h : vArray f.version tag maxN errMax items s = .ok ((xs, VFlags.ok), s'))
+    (h : vArray c f.version tag maxN errMax items s = .ok ((xs, VFlags.ok), s'))
     (hl : 4 + sizeofNonNeg f.version + (xs.map len).sum ≤ s.length) (hw : ∀ x ∈ xs, WF x) :
     s = (if xs.length = 0 then be32 0 ++ putNonNeg f.version 0
          else be32 tag ++ putNonNeg f.version xs.length ++ xs.flatMap enc) ++ s' := by
@@ -236,7 +290,7 @@ theorem vArray_inv {α : Type} (f : Fmt) (tag maxN : Nat) (errMax : VErr) (items
   have e1 := vTag_inv h1 (by omega)
   have l1 := length_of_eq_append e1
   simp only [be32_length] at l1
-  have e2 := vNonNeg_inv f h2 (by omega)
+  have e2 := vNonNeg_inv c f h2 (by omega)
   have l2 := length_of_eq_append e2
   rw [putNonNeg_length] at l2
   by_cases c1 : n > maxN
@@ -244,6 +298,9 @@ theorem vArray_inv {α : Type} (f : Fmt) (tag maxN : Nat) (errMax : VErr) (items
   · simp only [c1, ↓reduceIte] at h
     by_cases c2 : n = 0
     · simp only [c2, ↓reduceIte] at h
+      by_cases c4 : c.strictTag = true ∧ t ≠ 0 ∧ t ≠ tag
+      · simp only [if_pos c4] at h; exact (fail_inv h).elim
+      simp only [if_neg c4] at h
       have := pure_inv h
       simp only [Prod.mk.injEq, VFlags.ok, VFlags.mk.injEq, true_and] at this
       obtain ⟨⟨rfl, ht⟩, rfl⟩ := this
@@ -286,7 +343,7 @@ theorem vType_inv (f : Fmt) {s s' : Bytes} {t : NcType} (h : vType f.version s =
           rw [(ofCode_some ho).1]
           exact e1
 
-theorem vAttr_inv (f : Fmt) {s s' : Bytes} {a : Att} (h : vAttr f.version s = .ok ((a, VFlags.ok), s'))
+theorem vAttr_inv (c : VCfg) (f : Fmt) {s s' : Bytes} {a : Att} (h : vAttr c f.version s = .ok ((a, VFlags.ok), s'))
     (hl : lenAttr (sizeofNonNeg f.version) a ≤ s.length) (h0 : NoNul a.name) :
     s = putAttr f.version a ++ s' ∧ a.xvalue.length = a.nelems * a.xtype.size := by
   unfold vAttr at h
@@ -322,13 +379,13 @@ theorem vAttr_inv (f : Fmt) {s s' : Bytes} {a : Att} (h : vAttr f.version s = .o
   unfold lenAttr attrXsz at hl
   simp only [] at hl
   have hge := xlenAttrV_ge ty ne
-  have e1 := vName_inv f h1 (by omega) h0
+  have e1 := vName_inv c f h1 (by omega) h0
   have l1 := length_of_eq_append e1
   rw [putName_length f h0] at l1
   have e2 := vType_inv f h2 (by omega)
   have l2 := length_of_eq_append e2
   simp only [be32_length] at l2
-  have e3 := vNonNeg_inv f h3 (by omega)
+  have e3 := vNonNeg_inv c f h3 (by omega)
   have l3 := length_of_eq_append e3
   rw [putNonNeg_length] at l3
   have hxs : (if ne > 0 then xlenAttrV ty ne else 0) = (if ne > 0 then xlenAttrV ty ne else 0) - ne * ty.size + ne * ty.size := by
@@ -386,69 +443,83 @@ theorem vN_inv {α : Type} (item : VP (α × VFlags)) (enc : α → Bytes) (len 
     rw [e1, e2]
     simp [List.append_assoc]
 
-theorem vAttrArray_inv (f : Fmt) {s s' : Bytes} {as : List Att} (h : vAttrArray f.version s = .ok ((as, VFlags.ok), s'))
+theorem vAttrArray_inv (c : VCfg) (f : Fmt) {s s' : Bytes} {as : List Att} (h : vAttrArray c f.version s = .ok ((as, VFlags.ok), s'))
     (hl : lenAttrArray (sizeofNonNeg f.version) as ≤ s.length) (h0 : ∀ a ∈ as, NoNul a.name) :
     s = putAttrArray f.version as ++ s' := by
   unfold vAttrArray at h
   unfold putAttrArray
   unfold lenAttrArray at hl
-  exact vArray_inv f NC_ATTRIBUTE NC_MAX_ATTRS .emaxatts _ (putAttr f.version) (lenAttr (sizeofNonNeg f.version))
+  exact vArray_inv c f NC_ATTRIBUTE NC_MAX_ATTRS .emaxatts _ (putAttr f.version) (lenAttr (sizeofNonNeg f.version))
     (fun a => NoNul a.name)
-    (vN_inv (vAttr f.version) (putAttr f.version) (lenAttr (sizeofNonNeg f.version)) (fun a => NoNul a.name)
+    (vN_inv (vAttr c f.version) (putAttr f.version) (lenAttr (sizeofNonNeg f.version)) (fun a => NoNul a.name)
       (fun a ha => putAttr_length f a ha)
-      (fun s0 s1 a ha hla h0a => (vAttr_inv f ha hla h0a).1))
+      (fun s0 s1 a ha hla h0a => (vAttr_inv c f ha hla h0a).1))
     h hl h0
 
-theorem vDimid_inv (f : Fmt) {nd : Nat} {s s' : Bytes} {id : Nat} {fl : VFlags} (h : vDimid f.version nd s = .ok ((id, fl), s'))
-    (hl : sizeofNonNeg f.version ≤ s.length) : s = putNonNeg f.version id ++ s' := by
-  unfold vDimid at h
+theorem dimid_asis_inv {p : VP Nat} {nd : Nat} {s s' : Bytes} {id : Nat} {fl : VFlags}
+    (h : (p >>= fun v => match dimidC v with
+        | some d => if d ≥ nd then VP.fail .ebaddim else pure (v, VFlags.ok)
+        | none => pure (v, VFlags.ok)) s = .ok ((id, fl), s')) : p s = .ok (id, s') ∧ fl = VFlags.ok := by
   obtain ⟨v, s1, h1, h⟩ := bind_inv h
-  have e1 := vNonNeg_inv f h1 hl
   cases hd : dimidC v with
   | none =>
     rw [hd] at h
     have := pure_inv h
     simp only [Prod.mk.injEq] at this
-    obtain ⟨⟨rfl, _⟩, rfl⟩ := this
-    exact e1
+    obtain ⟨⟨rfl, rfl⟩, rfl⟩ := this
+    exact ⟨h1, rfl⟩
   | some d =>
     rw [hd] at h
     simp only [] at h
-    by_cases c : d ≥ nd
-    · simp only [c, ↓reduceIte] at h; exact (fail_inv h).elim
-    · simp only [c, ↓reduceIte] at h
+    by_cases cd : d ≥ nd
+    · simp only [cd, ↓reduceIte] at h; exact (fail_inv h).elim
+    · simp only [cd, ↓reduceIte] at h
       have := pure_inv h
       simp only [Prod.mk.injEq] at this
-      obtain ⟨⟨rfl, _⟩, rfl⟩ := this
-      exact e1
+      obtain ⟨⟨rfl, rfl⟩, rfl⟩ := this
+      exact ⟨h1, rfl⟩
+
+theorem dimid_rep_inv {p : VP Nat} {nd : Nat} {s s' : Bytes} {id : Nat} {fl : VFlags}
+    (h : (p >>= fun v => if v ≥ nd then VP.fail .ebaddim else pure (v, VFlags.ok)) s = .ok ((id, fl), s')) :
+    p s = .ok (id, s') ∧ fl = VFlags.ok ∧ id < nd := by
+  obtain ⟨v, s1, h1, h⟩ := bind_inv h
+  by_cases cd : v ≥ nd
+  · simp only [cd, ↓reduceIte] at h; exact (fail_inv h).elim
+  · simp only [cd, ↓reduceIte] at h
+    have := pure_inv h
+    simp only [Prod.mk.injEq] at this
+    obtain ⟨⟨rfl, rfl⟩, rfl⟩ := this
+    exact ⟨h1, rfl, by omega⟩
+
+theorem vDimid_inv (c : VCfg) (f : Fmt) {nd : Nat} {s s' : Bytes} {id : Nat} {fl : VFlags} (h : vDimid c f.version nd s = .ok ((id, fl), s'))
+    (hl : sizeofNonNeg f.version ≤ s.length) : s = putNonNeg f.version id ++ s' := by
+  obtain ⟨sl, ss, st, d64⟩ := c
+  cases d64 <;> cases f
+  · exact rdU32_inv (dimid_asis_inv (p := rdU32) h).1 (by simpa [sizeofNonNeg, Fmt.version] using hl)
+  · exact rdU32_inv (dimid_asis_inv (p := rdU32) h).1 (by simpa [sizeofNonNeg, Fmt.version] using hl)
+  · exact rdU64_inv (dimid_asis_inv (p := rdU64) h).1 (by simpa [sizeofNonNeg, Fmt.version] using hl)
+  · exact rdU32_inv (dimid_rep_inv (p := rdU32) h).1 (by simpa [sizeofNonNeg, Fmt.version] using hl)
+  · exact rdU32_inv (dimid_rep_inv (p := rdU32) h).1 (by simpa [sizeofNonNeg, Fmt.version] using hl)
+  · exact rdU64raw_inv (dimid_rep_inv (p := rdU64raw) h).1 (by simpa [sizeofNonNeg, Fmt.version] using hl)
 
 theorem sum_map_const (w : Nat) (l : List Nat) : (l.map (fun _ => w)).sum = w * l.length := by
   induction l with
   | nil => simp
   | cons a t ih => simp only [List.map_cons, List.sum_cons, List.length_cons, ih, Nat.mul_succ]; omega
 
-theorem vDimid_flag (f : Fmt) (nd : Nat) {s s' : Bytes} {id : Nat} {fl : VFlags}
-    (h : vDimid f.version nd s = .ok ((id, fl), s')) : fl = VFlags.ok := by
-  unfold vDimid at h
-  obtain ⟨v, u1, k1, h⟩ := bind_inv h
-  cases hd : dimidC v with
-  | none =>
-    rw [hd] at h
-    have := pure_inv h
-    simp only [Prod.mk.injEq] at this
-    exact this.1.2
-  | some d =>
-    rw [hd] at h
-    simp only [] at h
-    by_cases c : d ≥ nd
-    · simp only [c, ↓reduceIte] at h; exact (fail_inv h).elim
-    · simp only [c, ↓reduceIte] at h
-      have := pure_inv h
-      simp only [Prod.mk.injEq] at this
-      exact this.1.2
+theorem vDimid_flag (c : VCfg) (f : Fmt) (nd : Nat) {s s' : Bytes} {id : Nat} {fl : VFlags}
+    (h : vDimid c f.version nd s = .ok ((id, fl), s')) : fl = VFlags.ok := by
+  obtain ⟨sl, ss, st, d64⟩ := c
+  cases d64 <;> cases f
+  · exact (dimid_asis_inv (p := rdU32) h).2
+  · exact (dimid_asis_inv (p := rdU32) h).2
+  · exact (dimid_asis_inv (p := rdU64) h).2
+  · exact (dimid_rep_inv (p := rdU32) h).2.1
+  · exact (dimid_rep_inv (p := rdU32) h).2.1
+  · exact (dimid_rep_inv (p := rdU64raw) h).2.1
 
-theorem vN_dimid_flag (f : Fmt) (nd : Nat) : ∀ (n : Nat) (s s' : Bytes) (ids : List Nat) (fl : VFlags),
-    vN (vDimid f.version nd) n s = .ok ((ids, fl), s') → fl = VFlags.ok := by
+theorem vN_dimid_flag (c : VCfg) (f : Fmt) (nd : Nat) : ∀ (n : Nat) (s s' : Bytes) (ids : List Nat) (fl : VFlags),
+    vN (vDimid c f.version nd) n s = .ok ((ids, fl), s') → fl = VFlags.ok := by
   intro n
   induction n with
   | zero =>
@@ -465,19 +536,19 @@ theorem vN_dimid_flag (f : Fmt) (nd : Nat) : ∀ (n : Nat) (s s' : Bytes) (ids :
     have := pure_inv h
     simp only [Prod.mk.injEq] at this
     obtain ⟨⟨_, rfl⟩, _⟩ := this
-    rw [vDimid_flag f nd g1, ih t1 t2 t oks g2]
+    rw [vDimid_flag c f nd g1, ih t1 t2 t oks g2]
     rfl
 
-theorem vVar_inv (f : Fmt) {nd : Nat} {s s' : Bytes} {v : Var} (h : vVar f.version nd s = .ok ((v, VFlags.ok), s'))
+theorem vVar_inv (c : VCfg) (f : Fmt) {nd : Nat} {s s' : Bytes} {v : Var} (h : vVar c f.version nd s = .ok ((v, VFlags.ok), s'))
     (hl : lenVar (sizeofNonNeg f.version) (sizeofOff f.version) v ≤ s.length)
     (h0 : NoNul v.name ∧ ∀ a ∈ v.atts, NoNul a.name) : s = putVar f.version v ++ s' := by
   unfold vVar at h
   obtain ⟨⟨nm, ok1⟩, s1, h1, h⟩ := bind_inv h
   simp only [] at h
   obtain ⟨ndims, s2, h2, h⟩ := bind_inv h
-  by_cases c : ndims > NC_MAX_VAR_DIMS
-  · simp only [c, ↓reduceIte] at h; exact (fail_inv h).elim
-  · simp only [c, ↓reduceIte] at h
+  by_cases cnd : ndims > NC_MAX_VAR_DIMS
+  · simp only [cnd, ↓reduceIte] at h; exact (fail_inv h).elim
+  · simp only [cnd, ↓reduceIte] at h
     obtain ⟨⟨ids, fl1⟩, s3, h3, h⟩ := bind_inv h
     simp only [] at h
     obtain ⟨⟨atts, ok2⟩, s4, h4, h⟩ := bind_inv h
@@ -495,38 +566,38 @@ theorem vVar_inv (f : Fmt) {nd : Nat} {s s' : Bytes} {v : Var} (h : vVar f.versi
     unfold lenVar at hl
     simp only [] at hl
     have hla : 4 + sizeofNonNeg f.version ≤ lenAttrArray (sizeofNonNeg f.version) atts := by unfold lenAttrArray; omega
-    have e1 := vName_inv f h1 (by omega) h0.1
+    have e1 := vName_inv c f h1 (by omega) h0.1
     have l1 := length_of_eq_append e1
     rw [putName_length f h0.1] at l1
-    have e2 := vNonNeg_inv f h2 (by omega)
+    have e2 := vNonNeg_inv c f h2 (by omega)
     have l2 := length_of_eq_append e2
     rw [putNonNeg_length] at l2
     -- the dimids: `ndims` of them
-    have hN := vN_inv (vDimid f.version nd) (putNonNeg f.version) (fun _ => sizeofNonNeg f.version) (fun _ => True)
+    have hN := vN_inv (vDimid c f.version nd) (putNonNeg f.version) (fun _ => sizeofNonNeg f.version) (fun _ => True)
       (fun x _ => putNonNeg_length f x)
-      (fun s0 s1 x hx hlx _ => vDimid_inv f hx hlx)
-    have hfl1 := vN_dimid_flag f nd ndims s2 s3 ids fl1 h3
+      (fun s0 s1 x hx hlx _ => vDimid_inv c f hx hlx)
+    have hfl1 := vN_dimid_flag c f nd ndims s2 s3 ids fl1 h3
     subst hfl1
     have hsum : (ids.map (fun _ => sizeofNonNeg f.version)).sum = sizeofNonNeg f.version * ids.length := sum_map_const _ _
     obtain ⟨e3, hidl⟩ := hN ndims s2 s3 ids VFlags.ok h3 rfl (by rw [hsum]; omega) (fun _ _ => trivial)
     have l3 := length_of_eq_append e3
     rw [length_flatMap_eq_sum (putNonNeg f.version) (fun _ => sizeofNonNeg f.version) ids (fun x _ => putNonNeg_length f x), hsum] at l3
-    have e4 := vAttrArray_inv f h4 (by omega) h0.2
+    have e4 := vAttrArray_inv c f h4 (by omega) h0.2
     have l4 := length_of_eq_append e4
     rw [putAttrArray_length f atts h0.2] at l4
     have e5 := vType_inv f h5 (by omega)
     have l5 := length_of_eq_append e5
     simp only [be32_length] at l5
-    have e6 := vNonNeg_inv f h6 (by omega)
+    have e6 := vVsize_inv c f h6 (by omega)
     have l6 := length_of_eq_append e6
     rw [putNonNeg_length] at l6
-    have e7 := vBegin_inv f h7 (by omega)
+    have e7 := vBegin_inv c f h7 (by omega)
     unfold putVar
     simp only []
     rw [e1, e2, e3, e4, e5, e6, e7, hidl]
     simp [List.append_assoc]
 
-theorem vBody_inv (f : Fmt) {s s' : Bytes} {h : Hdr} (hb : vBody f s = .ok ((h, VFlags.ok), s'))
+theorem vBody_inv (c : VCfg) (f : Fmt) {s s' : Bytes} {h : Hdr} (hb : vBody c f s = .ok ((h, VFlags.ok), s'))
     (hl : Hdr.len h ≤ s.length + 4) (h0 : NamesNoNul h) :
     h.fmt = f ∧ s = putNonNeg f.version h.numrecs ++ putDimArray f.version h.dims ++ putAttrArray f.version h.gatts ++
       putVarArray f.version h.vars ++ s' := by
@@ -551,32 +622,32 @@ theorem vBody_inv (f : Fmt) {s s' : Bytes} {h : Hdr} (hb : vBody f s = .ok ((h, 
   have hda : 4 + sizeofNonNeg f.version ≤ lenDimArray (sizeofNonNeg f.version) dims := by unfold lenDimArray; omega
   have hga : 4 + sizeofNonNeg f.version ≤ lenAttrArray (sizeofNonNeg f.version) gatts := by unfold lenAttrArray; omega
   have hva : 4 + sizeofNonNeg f.version ≤ lenVarArray (sizeofNonNeg f.version) (sizeofOff f.version) vars := by unfold lenVarArray; omega
-  have e1 := vNonNeg_inv f h1 (by omega)
+  have e1 := vNumrecs_inv c f h1 (by omega)
   have l1 := length_of_eq_append e1
   rw [putNonNeg_length] at l1
   have e2 : s1 = putDimArray f.version dims ++ s2 := by
     unfold vDimArray at h2
     unfold putDimArray
     unfold lenDimArray at hl hda
-    exact vArray_inv f NC_DIMENSION NC_MAX_DIMS .emaxdims _ (putDim f.version) (lenDim (sizeofNonNeg f.version))
+    exact vArray_inv c f NC_DIMENSION NC_MAX_DIMS .emaxdims _ (putDim f.version) (lenDim (sizeofNonNeg f.version))
       (fun d => NoNul d.name)
-      (fun n s0 s1 ys fl hy hfl hly hwy => vDims_inv f n false s0 s1 ys fl hy hfl hly hwy)
+      (fun n s0 s1 ys fl hy hfl hly hwy => vDims_inv c f n false s0 s1 ys fl hy hfl hly hwy)
       h2 (by omega) hd0
   have l2 := length_of_eq_append e2
   rw [putDimArray_length f dims hd0] at l2
-  have e3 := vAttrArray_inv f h3 (by omega) hg0
+  have e3 := vAttrArray_inv c f h3 (by omega) hg0
   have l3 := length_of_eq_append e3
   rw [putAttrArray_length f gatts hg0] at l3
   have e4 : s3 = putVarArray f.version vars ++ s' := by
     unfold vVarArray at h4
     unfold putVarArray
     unfold lenVarArray at hl hva
-    exact vArray_inv f NC_VARIABLE NC_MAX_VARS .emaxvars _ (putVar f.version)
+    exact vArray_inv c f NC_VARIABLE NC_MAX_VARS .emaxvars _ (putVar f.version)
       (lenVar (sizeofNonNeg f.version) (sizeofOff f.version)) (fun v => NoNul v.name ∧ ∀ a ∈ v.atts, NoNul a.name)
-      (vN_inv (vVar f.version dims.length) (putVar f.version) (lenVar (sizeofNonNeg f.version) (sizeofOff f.version))
+      (vN_inv (vVar c f.version dims.length) (putVar f.version) (lenVar (sizeofNonNeg f.version) (sizeofOff f.version))
         (fun v => NoNul v.name ∧ ∀ a ∈ v.atts, NoNul a.name)
         (fun v hv => putVar_length f v hv.1 hv.2)
-        (fun s0 s1 v hv hlv h0v => vVar_inv f hv hlv h0v))
+        (fun s0 s1 v hv hlv h0v => vVar_inv c f hv hlv h0v))
       h4 (by omega) hv0
   rw [e1, e2, e3, e4]
   simp [List.append_assoc]
@@ -601,7 +672,7 @@ theorem vMagic_inv {b : Bytes} {f : Fmt} (h : vMagic b = .ok f) : b = magicBytes
 /-- If ncvalidator's reader accepts a file with null padding and every empty list written as ABSENT, the file is
     at least as long as the header it read, and no name contains a NUL byte, then the file begins with exactly
     the bytes the library's writer produces for that header: every tag, count, padding byte is determined. -/
-theorem vGetNC_canonical (b : Bytes) (h : Hdr) (info : Info) (hg : vGetNC b = .ok (h, info, VFlags.ok))
+theorem vGetNC_canonical (c : VCfg) (b : Bytes) (h : Hdr) (info : Info) (hg : vGetNC c b = .ok (h, info, VFlags.ok))
     (h0 : NamesNoNul h) (hl : Hdr.len h ≤ b.length) : ∃ rest, b = encodeRaw h ++ rest := by
   unfold vGetNC at hg
   cases hm : vMagic b with
@@ -609,7 +680,7 @@ theorem vGetNC_canonical (b : Bytes) (h : Hdr) (info : Info) (hg : vGetNC b = .o
   | ok f =>
     rw [hm] at hg
     simp only [] at hg
-    cases hb : vBody f (b.drop 4) with
+    cases hb : vBody c f (b.drop 4) with
     | error e => rw [hb] at hg; cases hg
     | ok r =>
       obtain ⟨⟨h', fl⟩, s'⟩ := r
@@ -622,7 +693,7 @@ theorem vGetNC_canonical (b : Bytes) (h : Hdr) (info : Info) (hg : vGetNC b = .o
         simp only [Except.ok.injEq, Prod.mk.injEq] at hg
         obtain ⟨rfl, rfl, rfl⟩ := hg
         obtain ⟨em, hlen⟩ := vMagic_inv hm
-        obtain ⟨hfmt, eb⟩ := vBody_inv f hb (by simp only [List.length_drop]; omega) h0
+        obtain ⟨hfmt, eb⟩ := vBody_inv c f hb (by simp only [List.length_drop]; omega) h0
         refine ⟨s', ?_⟩
         rw [em, eb]
         unfold encodeRaw
